@@ -1,5 +1,21 @@
 SOURCE_COMMITS = []
 CHECKS = [
+ {"property_id": "C01",
+  "text": "Bounded exhaustive exploration on the real code: every slice triple (bounds None and [-L-2, L+2], steps up to 7) on "
+          "L<=9 (quick) / 16 (thorough), every class x 7-9 rates (mHz..GHz) x start/none, fast_len, cropped time shifts, every "
+          "whole-sample snippet, dedispersion crops; plus breadth-first search over pipelines of 16 crop operations to depth 3/4 "
+          "with state de-duplication on (ledger, jd bits). Oracle: exact-rational ledger on the Time two-double; payload "
+          "index-encoding traces pure crops bit-exactly; contains(t) against the exact half-open interval.",
+  "note": "Trusts astropy Time (jd1, jd2) as the time representation, Python Fractions, and the independent dispersion-delay "
+          "formula for dedispersion crops; FFT-based crops are checked for their ledger only (values in C03/C05).",
+  "technique": "explicit-state BFS over operation sequences on real objects + exhaustive single-step enumeration, exact rational reference ledger"},
+ {"property_id": "C02",
+  "text": "Bounded exhaustive exploration: 5 radio classes x nchan 1..6 (9 thorough) x 3 alignments x 6-8 bands in mixed units; "
+          "every non-empty channel range spelling, nested ranges from every distinct reached state (de-duplicated on range, "
+          "centre bits, alignment), third level, combined time+frequency slices, Stokes and trailing-axis selection; labels "
+          "compared with the band formula in Fractions.",
+  "note": "Trusts exact decimal unit scales of astropy units and Fractions; tolerance 8 ulp of max(|fc|, n*bw) per nesting level.",
+  "technique": "explicit-state enumeration of slicing sequences (depth 3) on real objects with state de-duplication, exact rational band model"},
  {"property_id": "C18",
   "text": "Exhaustive enumeration on the real functions: every N below 2^20 (quick) / 2^23 (thorough), N in {s-1,s,s+1} around "
           "7-smooth s below 2^62, and fast_len on every signal length 0..200 of every class; each result compared with an "
